@@ -230,9 +230,23 @@ static std::string augns(Toks& t) {
 
 // ---------------------------------------------------------------------------------- unscented transform, linear / noise layouts
 
-// ut mode nx nz ny k a b kap valid | A (ny x (nx+nz)) | bvec (ny) | means (nx x k) | covs (nx x nx*k) | Qin (nz x nz) | [Nadd (ny x ny)]
+// ut mode[:z1+z2+..] nx nz ny k a b kap valid | A (ny x (nx+nz)) | bvec (ny) | means (nx x k) | covs (nx x nx*k) | Qin (nz x nz) | [Nadd (ny x ny)]
 static std::string ut(Toks& t) {
     std::string mode = t.tok();
+    // "mode:z1+z2+...": the noise rows are appended by one augmentWithNoise call per block (diagonal blocks of Qin)
+    std::vector<long> blocks;
+    {
+        std::size_t c = mode.find(':');
+        if (c != std::string::npos) {
+            std::string rest = mode.substr(c + 1); mode = mode.substr(0, c);
+            std::size_t p = 0;
+            while (p <= rest.size()) {
+                std::size_t q = rest.find('+', p); if (q == std::string::npos) q = rest.size();
+                if (q == p) throw vh::BadArgs("noise blocks");
+                blocks.push_back(std::stol(rest.substr(p, q - p))); p = q + 1;
+            }
+        }
+    }
     long nx = t.nat(), nz = t.nat(), ny = t.nat(), k = t.nat();
     double a = t.dbl(), b = t.dbl(), kap = t.dbl(); long vcode = t.nat(); bool valid = (vcode == 1);
     const int mfail = valid ? 0 : (vcode == 2 ? 4 : 2);
@@ -243,7 +257,13 @@ static std::string ut(Toks& t) {
     bool additive = (mode == "asm" || mode == "amm");
     MatrixXd Nadd; if (additive) Nadd = t.mat(ny, ny);
     t.done();
-    if (nz > 0) g.augmentWithNoise(Qin);
+    if (blocks.empty()) { if (nz > 0) g.augmentWithNoise(Qin); }
+    else {
+        long sum = 0; for (long z : blocks) { if (z <= 0) throw vh::BadArgs("noise block"); sum += z; }
+        if (sum != nz) throw vh::BadArgs("noise blocks do not add up");
+        long off = 0;
+        for (long z : blocks) { MatrixXd Qb = Qin.block(off, off, z, z); g.augmentWithNoise(Qb); off += z; }
+    }
     VectorDescription in(nx, 0, nz), out(ny);
     sigma_point::UTWeight w(in, a, b, kap);
     Snapshot s0(g);
@@ -594,6 +614,84 @@ static std::string ukfcs(Toks& t) {
     return o.str();
 }
 
+// Two whole filters through the same linear-Gaussian history, each on its own trajectory, composed exactly as a
+// GaussianFilter's filtering_step() composes them (predict(corrected, predicted); freeze; correct(predicted, corrected)):
+// UKFPrediction + UKFCorrection (additive or generic constructors) and KFPrediction + KFCorrection.
+//   ukfh variant n nz m nzm k a b kap exo | means covs | steps |
+//        { skipP skipS skipC hasmeas F [G Q(nz)] | [Q(n)] u  H [D R(nzm)] | [R(m)] y }*
+// prints per step: predU corrU likU predK corrK likK
+static std::string ukfh(Toks& t) {
+    long variant = t.nat(), n = t.nat(), nz = t.nat(), m = t.nat(), nzm = t.nat(), k = t.nat();
+    double a = t.dbl(), b = t.dbl(), kap = t.dbl(); bool exo = t.flag();
+    GaussianMixture corrU(k, n), predU(k, n), corrK(k, n), predK(k, n);
+    corrU.mean() = t.mat(n, k); corrU.covariance() = t.mat(n, n * k);
+    corrK = corrU;
+    long steps = t.nat();
+    MatrixXd I = MatrixXd::Identity(n, n);
+    std::unique_ptr<UKFPrediction> up; std::unique_ptr<UKFCorrection> uc;
+    HTvState* usm0 = nullptr; HGenState* usm1 = nullptr; HConstExo* uexo = nullptr; HConstExo* kexo = nullptr;
+    HLtiMeas* um0 = nullptr; HGenMeas* um1 = nullptr;
+    VectorXd z0 = VectorXd::Zero(n), y0 = VectorXd::Zero(m);
+    if (variant == 0) {
+        usm0 = new HTvState(I, I);
+        std::unique_ptr<HTvState> sm(usm0);
+        if (exo) { uexo = new HConstExo(z0); sm->add_exogenous_model(std::unique_ptr<ExogenousModel>(uexo)); }
+        up.reset(new UKFPrediction(std::unique_ptr<AdditiveStateModel>(std::move(sm)), a, b, kap));
+        um0 = new HLtiMeas(MatrixXd::Zero(m, n), MatrixXd::Identity(m, m), y0, 0);
+        uc.reset(new UKFCorrection(std::unique_ptr<AdditiveMeasurementModel>(um0), a, b, kap));
+    } else {
+        MatrixXd A = MatrixXd::Zero(n, n + nz);
+        usm1 = new HGenState(A, z0, MatrixXd::Identity(nz, nz), VectorDescription(n, 0, nz), VectorDescription(n));
+        up.reset(new UKFPrediction(std::unique_ptr<StateModel>(usm1), a, b, kap));
+        MatrixXd Am = MatrixXd::Zero(m, n + nzm);
+        um1 = new HGenMeas(Am, VectorXd::Zero(m), MatrixXd::Identity(nzm, nzm), y0, VectorDescription(n, 0, nzm), VectorDescription(m), 0);
+        uc.reset(new UKFCorrection(std::unique_ptr<MeasurementModel>(um1), a, b, kap));
+    }
+    HTvState* ksm = new HTvState(I, I);
+    std::unique_ptr<HTvState> km(ksm);
+    if (exo) { kexo = new HConstExo(z0); km->add_exogenous_model(std::unique_ptr<ExogenousModel>(kexo)); }
+    KFPrediction kp{std::unique_ptr<LinearStateModel>(std::move(km))};
+    HLtiMeas* kmm = new HLtiMeas(MatrixXd::Zero(m, n), MatrixXd::Identity(m, m), y0, 0);
+    KFCorrection kc{std::unique_ptr<LinearMeasurementModel>(kmm)};
+    Out o; o.s("ok");
+    for (long s = 0; s < steps; ++s) {
+        bool skipP = t.flag(), skipS = t.flag(), skipC = t.flag(), hasmeas = t.flag();
+        MatrixXd F = t.mat(n, n), G, Q, Qeff;
+        if (variant == 1) { G = t.mat(n, nz); Q = t.mat(nz, nz); Qeff = G * Q * G.transpose(); Qeff = (0.5 * (Qeff + Qeff.transpose())).eval(); }
+        else { Q = t.mat(n, n); Qeff = Q; }
+        VectorXd u = t.vec(n);
+        MatrixXd H = t.mat(m, n), D, R, Reff;
+        if (variant == 1) { D = t.mat(m, nzm); R = t.mat(nzm, nzm); Reff = D * R * D.transpose(); Reff = (0.5 * (Reff + Reff.transpose())).eval(); }
+        else { R = t.mat(m, m); Reff = R; }
+        VectorXd y = t.vec(m);
+        if (usm0) { usm0->F_ = F; usm0->Q_ = Q; if (uexo) uexo->u_ = u; um0->setH(H); um0->setNoise(R); um0->y_ = y; um0->fail_ = hasmeas ? 0 : 1; }
+        else {
+            MatrixXd A(n, n + nz); A << F, G; usm1->A_ = A; usm1->Q_ = Q; usm1->b_ = exo ? u : z0;
+            MatrixXd Am(m, n + nzm); Am << H, D; um1->A_ = Am; um1->R_ = R; um1->y_ = y; um1->fail_ = hasmeas ? 0 : 1;
+        }
+        ksm->F_ = F; ksm->Q_ = Qeff; if (kexo) kexo->u_ = u;
+        kmm->setH(H); kmm->setNoise(Reff); kmm->y_ = y; kmm->fail_ = hasmeas ? 0 : 1;
+        up->skip("prediction", false); kp.skip("prediction", false);
+        if (skipP) { up->skip("prediction", true); kp.skip("prediction", true); }
+        else if (skipS) { up->skip("state", true); kp.skip("state", true); }
+        uc->skip(skipC); kc.skip(skipC);
+
+        up->predict(corrU, predU);
+        uc->freeze_measurements();
+        uc->correct(predU, corrU);
+        kp.predict(corrK, predK);
+        kc.freeze_measurements();
+        kc.correct(predK, corrK);
+
+        bool done = hasmeas && !skipC;
+        std::pair<bool, VectorXd> likU(false, VectorXd()), likK(false, VectorXd());
+        if (done) { likU = uc->getLikelihood(); likK = kc.getLikelihood(); }
+        o.s("step"); outGMs(o, predU); outGMs(o, corrU); outLik(o, likU); outGMs(o, predK); outGMs(o, corrK); outLik(o, likK);
+    }
+    t.done();
+    return o.str();
+}
+
 int main() {
     return vh::run([](const std::string& op, Toks& t, std::string& out) {
         if (op == "utw") { out = utw(t); return true; }
@@ -607,6 +705,7 @@ int main() {
         if (op == "ukfc") { out = ukfc(t); return true; }
         if (op == "ukfps") { out = ukfps(t); return true; }
         if (op == "ukfcs") { out = ukfcs(t); return true; }
+        if (op == "ukfh") { out = ukfh(t); return true; }
         return false;
     });
 }
